@@ -1,6 +1,6 @@
 /- Line-protocol driver for the C01 model.  Run: `lean --run Driver/C01.lean < ops` (LEAN_PATH set). -/
 import CfVerif.Base.Proto
-import CfVerif.Model.C01
+import CfVerif.Spec.C01
 open CfVerif CfVerif.C01
 
 def showErrKind : ErrKind → String
@@ -42,7 +42,7 @@ def showAns : Ans → String
   | .exc => "exc"
   | .resp a => s!"ack={if a.ack then 1 else 0} pd={if a.powerDet then 1 else 0} retry={a.retry} data={toHex a.data}"
 
-def step (h : Host) (ws : List String) : Host × String :=
+def hostStep (h : Host) (ws : List String) : Host × String :=
   match ws with
   | ["reset", n] =>
     match n.toNat? with
@@ -76,4 +76,62 @@ def step (h : Host) (ws : List String) : Host × String :=
     | _, _ => (h, "bad-op")
   | _ => (h, "bad-op")
 
-def main : IO Unit := runProto (Host.init Gen.C01.nrOfRetries) step
+def showFrames (l : List Bytes) : String :=
+  if l.isEmpty then "-" else ",".intercalate (l.map toHex)
+
+def parseOutcome? : String → Option Outcome
+  | "ok" => some .ok | "up" => some .upLost | "ack" => some .ackLost | _ => none
+
+/-- the closed system (host + Spec peer + channel); replies carry the host events of the step and, for a
+transmission, the USB reply the dongle model produced -/
+def sysStep (s : Sys) (ws : List String) : Sys × String :=
+  let n0 := s.evs.length
+  let fin (s' : Sys) (extra : String) : Sys × String := (s', "ok " ++ showEvs (s'.evs.drop n0) ++ extra)
+  match ws with
+  | ["reset", n, sl, up, down, last] =>
+    match n.toNat?, sl.toNat?, up.toNat?, down.toNat?, ofHex? last with
+    | some n, some sl, some up, some down, some last =>
+      (Sys.init n { Peer.init with safelink := sl ≠ 0, up := up, down := down, last := last }, "ok")
+    | _, _, _, _, _ => (s, "bad-op")
+  | ["sub", hd, d] =>
+    match hd.toNat?, ofHex? d with
+    | some hd, some d =>
+      if hd < 256 then
+        let p : Pkt := { hdr := UInt8.ofNat hd, data := d }
+        if (s.host.submit p).isNone then (s, "err unsupported") else fin (s.step (.sub p)) ""
+      else (s, "bad-op")
+    | _, _ => (s, "bad-op")
+  | ["timeout"] =>
+    if s.host.timeout.isNone then (s, "err unsupported") else fin (s.step .timeout) ""
+  | ["queue", f] =>
+    match ofHex? f with
+    | some f => fin (s.step (.queue f)) ""
+    | none => (s, "bad-op")
+  | ["xmit", o, st, rssi] =>
+    match parseOutcome? o, st.toNat?, rssi.toNat? with
+    | some o, some st, some rssi =>
+      if st < 256 ∧ rssi < 256 then
+        let st8 := UInt8.ofNat st
+        let r8 := UInt8.ofNat rssi
+        let pr := match o with
+          | .upLost => (s.peer, [])
+          | _ => s.peer.recv s.host.txFrame r8
+        fin (s.step (.xmit o st8 r8)) (" usb=" ++ toHex (usbReply st8 o pr.2))
+      else (s, "bad-op")
+    | _, _, _ => (s, "bad-op")
+  | ["state"] =>
+    (s, s!"ok needs_resending={if s.host.needsResending then 1 else 0} " ++
+        s!"delivered={showFrames s.peer.rxq} pending={s.peer.txq.length} peer_safelink={if s.peer.safelink then 1 else 0}")
+  | _ => (s, "bad-op")
+
+structure DState where
+  h : Host
+  s : Sys
+
+def step (d : DState) (ws : List String) : DState × String :=
+  match ws with
+  | "sys" :: rest => let (s', r) := sysStep d.s rest; ({ d with s := s' }, r)
+  | _ => let (h', r) := hostStep d.h ws; ({ d with h := h' }, r)
+
+def main : IO Unit :=
+  runProto { h := Host.init Gen.C01.nrOfRetries, s := Sys.init Gen.C01.nrOfRetries Peer.init } step
